@@ -193,7 +193,7 @@ Proof.
   - exists s. now rewrite app_nil_r.
   - cbn [existsb] in H. apply negb_true_iff, orb_false_iff in H as [Ha Hl].
     assert (Hl' : negb (existsb action_is_panic l) = true) by now rewrite Hl.
-    destruct a as [k v|n|b|k v|k|m|k]; cbn [run_action bind] in *; try discriminate.
+    destruct a as [k v|n|b|k v|k|m|k|pb|ec ep]; cbn [run_action bind] in *; try discriminate.
     + destruct (IH (upd_hdr s (hadd (st_hdr s) k v)) Hl') as (s' & E & L1 & A1). exists s'. auto.
     + destruct (IH (write_header s n) Hl') as (s' & E & L1 & A1). destruct (vlog_write_header s n) as [V A].
       exists s'. rewrite V, A in *. auto.
@@ -205,6 +205,11 @@ Proof.
       rewrite filter_app. cbn [filter]. replace (is_see (L "see:" ++ k ++ L "=" ++ attr_get k (st_attrs s))) with true by reflexivity.
       now rewrite <- app_assoc.
     + destruct (IH (upd_hdr s (filter (fun kv => negb (str_eqb (fst kv) k)) (st_hdr s))) Hl') as (s' & E & L1 & A1). exists s'. auto.
+    + destruct (IH (set_wrapper s pb (st_upper s)) Hl') as (s' & E & L1 & A1). exists s'. auto.
+    + set (body := if st_pretty s then ep else ec) in *.
+      destruct (IH (write_body (write_header s 200) body) Hl') as (s' & E & L1 & A1).
+      destruct (vlog_write_header s 200) as [V A]. destruct (vlog_write_body (write_header s 200) body) as [V2 A2].
+      exists s'. rewrite V2, A2, V, A in *. auto.
 Qed.
 
 Lemma vlog_upd_log_other s e : is_see e = false -> vlog (upd_log s e) = vlog s.
@@ -229,10 +234,16 @@ Proof.
     destruct (run_actions_sees (f_pre f) (upd_log s (L "pre:" ++ f_id f)) Ppre) as (s1 & E1 & L1 & A1).
     rewrite E1. cbn [bind]. rewrite vlog_upd_log_other in L1 by reflexivity. cbn [upd_log st_attrs] in L1, A1.
     rewrite Hff. destruct (f_pass f).
-    + destruct (IH target tgt s1 Hrest Hfrest Ht) as (s2 & E2 & L2 & A2). rewrite E2. cbn [bind].
-      destruct (run_actions_sees (f_post f) s2 Ppost) as (s3 & E3 & L3 & A3). rewrite E3. cbn [bind].
+    + cbv beta iota.
+      set (s1'' := if f_wrap f then set_wrapper s1 true (S (st_upper s1)) else s1).
+      assert (W1 : vlog s1'' = vlog s1 /\ st_attrs s1'' = st_attrs s1) by (subst s1''; destruct (f_wrap f); split; reflexivity).
+      destruct (IH target tgt s1'' Hrest Hfrest Ht) as (s2 & E2 & L2 & A2). rewrite E2. cbn [bind].
+      set (s2'' := if f_wrap f then set_wrapper s2 (st_pretty s1) (st_upper s1) else s2).
+      assert (W2 : vlog s2'' = vlog s2 /\ st_attrs s2'' = st_attrs s2) by (subst s2''; destruct (f_wrap f); split; reflexivity).
+      destruct (run_actions_sees (f_post f) s2'' Ppost) as (s3 & E3 & L3 & A3). rewrite E3. cbn [bind].
       eexists. split; [reflexivity|]. rewrite vlog_upd_log_other by reflexivity. cbn [upd_log st_attrs].
-      rewrite L3, L2, L1, A3, A2, A1, !sees_app, !attrs_app, <- !app_assoc. auto.
+      destruct W1 as [W1 W1a], W2 as [W2 W2a].
+      rewrite L3, W2, L2, W1, L1, A3, W2a, A2, W1a, A1, !sees_app, !attrs_app, <- !app_assoc. auto.
     + destruct (run_actions_sees (f_post f) s1 Ppost) as (s3 & E3 & L3 & A3). rewrite E3. cbn [bind].
       eexists. split; [reflexivity|]. rewrite vlog_upd_log_other by reflexivity. cbn [upd_log st_attrs].
       rewrite L3, L1, A3, A1, !sees_app, !attrs_app. cbn [app sees_of attrs_after]. rewrite <- !app_assoc. auto.
@@ -539,7 +550,10 @@ Proof.
   - intros H. now contradiction H.
 Qed.
 Lemma guard_run_action a s : raw_guard s <> None -> raw_guard (state_of (run_action a s)) = raw_guard s.
-Proof. destruct a; cbn; auto using guard_write_header, guard_write_body. Qed.
+Proof.
+  destruct a; cbn; auto using guard_write_header, guard_write_body.
+  intros H. rewrite guard_write_body; rewrite guard_write_header; auto.
+Qed.
 Lemma guard_run_actions l s : raw_guard s <> None -> raw_guard (state_of (run_actions l s)) = raw_guard s.
 Proof.
   revert s; induction l as [|a l IH]; intros s H; [reflexivity|]. cbn [run_actions].
@@ -560,10 +574,10 @@ Proof.
   apply guard_bind; [exact Hs| now rewrite guard_run_actions |].
   intros s1 H1. assert (N1 : raw_guard s1 <> None) by now rewrite H1. destruct (f_pass f).
   - apply guard_bind; [exact Hs| |].
-    + destruct (f_fresh f); rewrite IH; auto.
+    + destruct (f_fresh f), (f_wrap f); rewrite IH; auto.
     + intros s2 H2. assert (N2 : raw_guard s2 <> None) by now rewrite H2.
       apply guard_bind; [exact Hs| |].
-      * destruct (f_fresh f); rewrite guard_run_actions; auto.
+      * destruct (f_fresh f), (f_wrap f); rewrite guard_run_actions; auto.
       * intros s3 H3. exact H3.
   - apply guard_bind; [exact Hs|now rewrite guard_run_actions|]. intros s3 H3. exact H3.
 Qed.
